@@ -88,6 +88,12 @@ def make_world():
         "mean_A": F.ffunc_mean(f2A, args["wA"], True, (0, False)),
         "mean_B": F.ffunc_mean(args["f2B"], wB),
         "mean_u": F.ffunc_mean(fA),
+        # (C) NaN-marked fact, no weights; (D) (values, validity) fact, no weights
+        "valid_count_C": F.ffunc_valid_count(args["fB"]),
+        "valid_count_D": F.ffunc_valid_count(f2A, None, True),
+        "sum_Cn": F.ffunc_sum(args["fB"]),
+        "sum_D": F.ffunc_sum(fA, None, True, (0, False)),
+        "mean_C": F.ffunc_mean(args["f2B"], None, True),
     }
     xf = {
         "count": X.xfunc_count(),
@@ -115,6 +121,21 @@ def make_world():
         "covariance_A": X.xfunc_covariance(f2A, args["wA"], True),
         "covariance_B": X.xfunc_covariance(args["f2B"], wB),
         "covariance_C": X.xfunc_covariance(args["f2C"], args["wC"]),
+        # (C) NaN-marked fact, no weights; (D) (values, validity) fact, no weights
+        "valid_count_C": X.xfunc_valid_count(args["fB"]),
+        "sum_Cn": X.xfunc_sum(args["f2B"], None, True),
+        "sum_D": X.xfunc_sum(fA),
+        "mean_C": X.xfunc_mean(args["fB"]),
+        "mean_D": X.xfunc_mean(f2A, None, True),
+        "stddev_Cn": X.xfunc_stddev(args["fB"], None, True),
+        "stddev_D": X.xfunc_stddev(f2A),
+        "quantile_Cn": X.xfunc_quantile(args["f2B"], 0.5, None, True),
+        "quantile_D": X.xfunc_quantile(fA, 0.5),
+        "max_C": X.xfunc_max(args["fB"], True),
+        "min_D": X.xfunc_min(fA, True, (0, False)),
+        "corrcoef_D": X.xfunc_corrcoef(f2A),
+        "covariance_Cn": X.xfunc_covariance(args["f2B"], None, True),
+        "covariance_D": X.xfunc_covariance(f2A),
     }
     return {"args": args, "idx": idx, "cubes": cubes, "ff": ff, "xf": xf, "dims_lists": dims_lists, "tuples": {"fA": fA, "f2A": f2A, "iF": iF, "wB": wB}, "pristine": pristine}
 
